@@ -176,22 +176,27 @@ func runC20(c *Ctx) {
 			continue
 		}
 		n := 0
-		for _, in := range instrsIn(fn, func(in ssa.Instruction) bool {
+		for _, h := range p.deepFind(fn, func(in ssa.Instruction) bool {
 			st, ok := in.(*ssa.Store)
 			if !ok {
 				return false
 			}
 			t := termOf(st.Addr)
-			return t.Op == "field" && t.Args[0].lastField() == "Status" && rootParam(t) == 2
-		}) {
+			return t.Op == "field" && t.Args[0].lastField() == "Status"
+		}, 2) {
+			in := h.In
 			st := in.(*ssa.Store)
-			fld := termOf(st.Addr).Name
+			addr := liftTerm(termOf(st.Addr), h.Chain)
+			if rootParam(addr) != 2 {
+				continue
+			}
+			fld := addr.Name
 			n++
 			call, ok := st.Val.(*ssa.Call)
 			okSum := ok && calleeOf(call) != nil && calleeOf(call).Name() == "SumResources"
 			if okSum {
 				for _, a := range call.Common().Args {
-					if termOf(a).lastField() != fld {
+					if liftTerm(termOf(a), h.Chain).lastField() != fld {
 						okSum = false
 					}
 				}
